@@ -30,6 +30,7 @@ pub mod timer {
 use vstd::prelude::*;
 use vstd::multiset::Multiset;
 use std::{cell::RefCell, collections::BinaryHeap, rc::Rc, time::{Duration, Instant}};
+#[allow(unused_imports)] use std::collections::*;   // (not in the real file: lets an edited TimerWheel mention other std collections)
 use std::cmp::Ordering;
 use crate::ext_time::*;
 use crate::{EventSource, Poll, PostAction, Readiness, Token, TokenFactory};
